@@ -18,19 +18,27 @@ for _k in KEYWORDS:
 WORD = re.compile(r"\.?[A-Za-z_][A-Za-z0-9_]*")
 
 
+_ASCII_LOWER = {c: c + 32 for c in range(ord("A"), ord("Z") + 1)}
+
+
+def _lower(s):
+    """ASCII-only lower case: the same length as s (str.lower() turns 'İ' into two characters)."""
+    return s.translate(_ASCII_LOWER)
+
+
 def compare(text, display):
     """None when equal modulo (CRLF->LF, case of keyword words); else a description of the first difference."""
     a = text.replace("\r\n", "\n")
     b = display.replace("\r\n", "\n")   # a CRLF inside a block comment is kept verbatim by the tokens
     if a == b:
         return None
-    if len(a) != len(b) or a.lower() != b.lower():
+    if len(a) != len(b) or _lower(a) != _lower(b):
         n = min(len(a), len(b))
-        i = next((k for k in range(n) if a[k].lower() != b[k].lower()), n)
+        i = next((k for k in range(n) if _lower(a[k]) != _lower(b[k])), n)
         return "differs at offset %d: input %r vs display %r" % (i, a[max(0, i - 10):i + 15], b[max(0, i - 10):i + 15])
     # same up to case: every differing position must lie inside a keyword word
     # (the parser splits e.g. `.asserta` into `.assert` `a`, so a keyword is looked for at any offset around k)
-    low = a.lower()
+    low = _lower(a)
     for k in (k for k in range(len(a)) if a[k] != b[k]):
         ok = False
         for o in range(max(0, k - MAXKW + 1), k + 1):
@@ -106,7 +114,7 @@ def shard(idx, n, seed, tier, params):
     progs = corpus.SHORT_PROGRAMS
     jobs = []
     for pi, prog in enumerate(progs):
-        alphabet = mutate.HOSTILE if tier == "thorough" else mutate.HOSTILE[:22]
+        alphabet = mutate.HOSTILE if tier == "thorough" else mutate.HOSTILE_QUICK
         for mi, (kind, pos, ch, text) in enumerate(mutate.single_char_mutants(prog, alphabet)):
             if (pi * 7919 + mi) % n == idx:
                 jobs.append((pi, kind, pos, ch, text))
